@@ -19,6 +19,8 @@
                 the identity of the status object of an earlier result had changed (results are
                 fresh objects: never).
    801  one transition on a one-entry dictionary: a0 = status, a1 = [sub; has_step; step]
+   802  the steps of 800 on one tracker, for histories of tens of thousands of steps: result = the return
+        value of every step, then [n] and the n dictionary entries as they are at the END of the history
    850  Spec: table on (a0 = status, a1 = [sub; step]):  [1] (ValueError) | [0; completed; status]
    851  Spec: history on keys: a0 = keys to report; a1.. = [0; key] | [1; key; sub; step] | [2; key] | [3];
         result: per call the return value as in 800 followed by, for every key of a0,
@@ -106,6 +108,13 @@ Fixpoint srun (keys : list Z) (m : tracker) (ops : list sop) : args :=
     ++ srun keys m' r
   end.
 
+(* 802: return values only (accumulated in reverse, one pass), the dictionary at the end *)
+Fixpoint hrets (d : vdict) (ops : list hop) (acc : args) : args * vdict :=
+  match ops with
+  | [] => (rev_append acc [], d)
+  | o :: r => let '(d', x) := hstep d o in hrets d' r (vout_fields x :: acc)
+  end.
+
 Definition run_verif (op : Z) (a : args) : args :=
   match op with
   | 800 =>
@@ -117,6 +126,9 @@ Definition run_verif (op : Z) (a : args) : args :=
     let r := {| rep_id := reqid_of id; rep_sub := int 1 0 a;
                 rep_step := if int 1 1 a =? 0 then None else Some (int 1 2 a) |} in
     let '(d', x) := vstep d (AddTm r) in [0] :: obs_v (x, d')
+  | 802 =>
+    let '(rets, d) := hrets [] (map hop_of a) [] in
+    [0] :: rets ++ [Z.of_nat (length d)] :: map (fun e => fst e :: status_fields (snd e)) d
   | 850 =>
     match table (int 1 0 a) (int 1 1 a) (sstatus_of (lst 0 a)) with
     | None => [[0]; [1]]
